@@ -1,18 +1,947 @@
-//! C14 — not implemented yet.
+//! C14 — written frame tables read back with the same CIEs, FDEs and unwind rows.
+//!
+//! Oracle (written here, nothing shared with `gimli::write`):
+//!  * `XTable` — a plain description of what is handed to the writer;
+//!  * `classify` — which tables are expressible (DWARF factoring rules, value ranges of
+//!    the pointer formats, supported versions);
+//!  * `c14_rows::model_rows` — the rows the supplied instructions mean;
+//!  * `walk_entries` — an independent walk over the initial-length fields of the output.
+//! The emitted bytes are read back with `gimli::read::{DebugFrame, EhFrame}`.
+
+#[path = "c14_rows.rs"]
+mod rows;
+#[path = "c14_gen.rs"]
+mod gen;
 
 use crate::props::PropInfo;
-use crate::rt::Ctx;
+use crate::rt::{fnv, hex, Ctx};
+use gimli::read::{self as rd, UnwindSection};
+use gimli::write as w;
+use gimli::{EndianSlice, Register, RunTimeEndian};
+use rows::{model_rows, MCfa, MRow, MRule, XExpr, XInsn, XOp};
+use serde_json::json;
+use std::collections::BTreeMap;
 
 pub fn info() -> PropInfo {
     PropInfo {
         id: "C14",
         level: "exploration",
-        rule: "",
-        assumptions: &[],
-        exhaustive_subspaces: &[],
-        must_observe: &[],
+        rule: "Five streams of write::FrameTable descriptions, each built, written with write_debug_frame / write_eh_frame into an EndianVec and, when the writer returns Ok, read back with read::{DebugFrame,EhFrame} (BaseAddresses with eh_frame = 0, section address size = the table's, vendor AArch64 when NegateRaState is used) and compared with the harness model. `adv`: every code alignment factor 0..=255 x 16 factored advances around the advance_loc boundaries (0,1,0x3e..0x41,0xfe..0x101,0xfffe..0x10001,..) x aligned / +1 / -1 byte, configuration (section, version, format, address size, byte order) rotated by index. `data`: every data alignment factor -128..=127 x {Cfa, CfaOffset, Offset, ValOffset} x 19 factored-offset patterns (0, +-1, 0x3f/0x40, +-0x40/0x41, 0x7f/0x80, i32 extremes) x aligned / +1 / -1, registers rotated over 0,0x3f,0x40,0x7f,0x80,0x3fff,0x4000,0xffff, code factor chosen different from |data factor|. `enc`: all 256 pointer-encoding bytes x role (FDE address, LSDA, personality) x address size 1/2/4/8 x both sections x 10 address patterns. `rand`: seeded tables with 1-4 CIEs (exact duplicates, near-duplicates differing in exactly one field, unreferenced CIEs, mixed formats, v4 CIEs with their own address size), 0-6 FDEs with 0-40 instructions of every CallFrameInstruction variant kept well-formed by the model interpreter (remember/restore balanced, def_cfa_register/offset only on a register CFA, negate_ra_state only on a constant rule), code offsets advancing by boundary factored deltas, boundary registers and offsets, raw and operation-built expressions; 30% of the tables get exactly one unexpressible feature injected (misaligned / zero-factor data or code offset, decreasing code offset [release build only], v1 return register > 255, unsupported version, unsupported pointer encoding, value too large for the pointer format or address size, symbolic address). `regress`: hand-written witnesses of the earlier findings (zero factors, i32::MIN / -1, 64-bit padding, v1 .eh_frame return register >= 0x80). Compared: Ok/Err against the model's verdict; add_cie ids equal iff the CIE values are equal, cie_count/fde_count; the exact entry sequence (each distinct referenced CIE once, immediately before its first FDE); all CIE parameters; FDE CIE binding (by offset), address, length, LSDA, personality, signal flag; every unwind row (start, end, CFA, every register rule, args size); entries tile the section and every entry's total size is a multiple of its address size. A case is non-trivial when the table has at least one FDE; distinct cases are counted by a digest of the complete table description.",
+        assumptions: &[
+            "pointer values are judged as follows: Ok required when the value (pcrel: value minus every possible field offset) lies inside the pointer format's range; Err required when no representative modulo 2^(8*address_size) fits the format; in between (negative pc-relative delta in an unsigned/narrow format, high-bit address in a narrow signed format) either outcome is accepted, but an Ok must read back exactly",
+            "addresses beyond the address size in a wider pointer format (e.g. udata8 with 4-byte addresses) are not judged (no panic required only)",
+            "Offset/ValOffset/Cfa/CfaOffset with offset i32::MIN and data alignment factor -1 (factored value 2^31) may be rejected or written correctly",
+            "which write::Error variant is returned is recorded (obs err.*), not judged",
+            "decreasing code offsets are generated in the release profile only (debug_assert in add_instruction is a documented precondition); FDEs always carry an LSDA iff their CIE has an LSDA encoding (documented precondition)",
+            "rows are compared only when address + max(length, largest code offset) stays inside the address size (otherwise the reader's AddressOverflow is legitimate)",
+            "the CFA of a row is compared only once an instruction has defined it; remember_state/restore_state save and restore CFA, register rules and args size (DESIGN.md A.5)",
+            "operation-built expressions are expected in the shortest standard encoding (breg<n> for n < 32, bregx otherwise)",
+            "address sizes are 1, 2, 4, 8 only (the writer documents nothing for other sizes)",
+        ],
+        exhaustive_subspaces: &[
+            "code alignment factor 0..=255 x 16 boundary factored advances x {aligned,+1,-1} (stream adv)",
+            "data alignment factor -128..=127 x 4 offset-carrying instructions x 19 factored offsets x {aligned,+1,-1} (stream data)",
+            "all 256 pointer encoding bytes x 3 roles x address sizes 1/2/4/8 x 2 sections x 10 address patterns (stream enc)",
+        ],
+        must_observe: &[
+            "verdict.ok", "verdict.err", "verdict.either", "either.ok", "either.err",
+            "cls.data_misaligned", "cls.data_zero_factor", "cls.data_min_neg1", "cls.code_misaligned", "cls.code_zero_factor",
+            "cls.ra_v1", "cls.version", "cls.enc_application", "cls.enc_format", "cls.addr_too_large", "cls.len_too_large",
+            "cls.ptr_too_large", "cls.ptr_modular", "cls.symbol",
+            "err.InvalidFrameCodeOffset", "err.InvalidFrameDataOffset", "err.ValueTooLarge", "err.UnsupportedVersion", "err.UnsupportedPointerEncoding", "err.InvalidAddress",
+            "sec.eh_frame", "sec.debug_frame", "ver.1", "ver.3", "ver.4", "fmt.32", "fmt.64", "asize.1", "asize.2", "asize.4", "asize.8", "endian.le", "endian.be",
+            "aug.none", "aug.personality", "aug.lsda", "aug.fde_enc", "aug.signal", "enc.pcrel", "enc.indirect",
+            "encfmt.0", "encfmt.1", "encfmt.2", "encfmt.3", "encfmt.4", "encfmt.9", "encfmt.a", "encfmt.b", "encfmt.c",
+            "insn.Cfa", "insn.CfaRegister", "insn.CfaOffset", "insn.CfaExpression", "insn.Restore", "insn.Undefined", "insn.SameValue",
+            "insn.Offset", "insn.ValOffset", "insn.Register", "insn.Expression", "insn.ValExpression", "insn.RememberState",
+            "insn.RestoreState", "insn.ArgsSize", "insn.NegateRaState",
+            "adv.same", "adv.inline", "adv.loc1", "adv.loc2", "adv.loc4", "adv.f0x3f", "adv.f0x40", "adv.f0xff", "adv.f0x100", "adv.f0xffff", "adv.f0x10000",
+            "reg.0x3f", "reg.0x40", "reg.large", "off.neg", "off.pos", "caf.0", "daf.0", "daf.neg", "daf.pos",
+            "cie.dup_exact", "cie.near_dup", "cie.unreferenced", "cie.shared_by_fdes", "cie.mixed_asize", "table.empty",
+            "rows.compared", "readback.tables", "expr.raw", "expr.ops",
+        ],
         run,
     }
 }
 
-pub fn run(_ctx: &mut Ctx) {}
+// ================================================================ table description
+
+#[derive(Clone, Debug, PartialEq, Eq, Hash)]
+pub enum XAddr {
+    Const(u64),
+    Symbol(usize, i64),
+}
+
+#[derive(Clone, Debug, PartialEq, Eq, Hash)]
+pub struct XCie {
+    pub fmt64: bool,
+    pub version: u16,
+    pub asize: u8,
+    pub caf: u8,
+    pub daf: i8,
+    pub ra: u16,
+    pub personality: Option<(u8, XAddr)>,
+    pub lsda_enc: Option<u8>,
+    pub fde_enc: u8,
+    pub signal: bool,
+    pub insns: Vec<XInsn>,
+}
+
+impl XCie {
+    pub fn has_aug(&self) -> bool {
+        self.personality.is_some() || self.lsda_enc.is_some() || self.signal || self.fde_enc != 0
+    }
+}
+
+#[derive(Clone, Debug, PartialEq, Eq, Hash)]
+pub struct XFde {
+    /// index into `XTable::cies` (the CIE as added, duplicates included)
+    pub cie: usize,
+    pub addr: XAddr,
+    pub len: u32,
+    pub lsda: Option<XAddr>,
+    pub insns: Vec<(u32, XInsn)>,
+}
+
+#[derive(Clone, Debug, PartialEq, Eq, Hash)]
+pub struct XTable {
+    pub eh: bool,
+    pub le: bool,
+    pub sec_asize: u8,
+    pub cies: Vec<XCie>,
+    pub fdes: Vec<XFde>,
+}
+
+pub fn mask_of(asize: u8) -> u64 {
+    match asize {
+        1 => 0xff,
+        2 => 0xffff,
+        4 => 0xffff_ffff,
+        _ => u64::MAX,
+    }
+}
+
+pub const SUPPORTED_FORMATS: [u8; 9] = [0x0, 0x1, 0x2, 0x3, 0x4, 0x9, 0xa, 0xb, 0xc];
+
+pub fn enc_supported(enc: u8) -> bool {
+    matches!(enc & 0x70, 0x00 | 0x10) && SUPPORTED_FORMATS.contains(&(enc & 0x0f))
+}
+
+/// Inclusive value range of a pointer format.
+pub fn format_range(fmt: u8, asize: u8) -> Option<(i128, i128)> {
+    let u = |bits: u32| (0i128, (1i128 << bits) - 1);
+    let s = |bits: u32| (-(1i128 << (bits - 1)), (1i128 << (bits - 1)) - 1);
+    Some(match fmt {
+        0x0 => u(asize as u32 * 8),
+        0x1 => u(64),
+        0x2 => u(16),
+        0x3 => u(32),
+        0x4 => u(64),
+        0x9 => s(64),
+        0xa => s(16),
+        0xb => s(32),
+        0xc => s(64),
+        _ => return None,
+    })
+}
+
+// ================================================================ classification
+
+#[derive(Clone, Debug, Default)]
+pub struct Verdict {
+    pub must_err: Vec<&'static str>,
+    pub either: Vec<&'static str>,
+    /// the read-back comparison is not meaningful (address beyond the address size)
+    pub no_readback: bool,
+}
+
+fn insn_bound(i: &XInsn) -> i128 {
+    let e = match i {
+        XInsn::CfaExpression(e) | XInsn::Expression(_, e) | XInsn::ValExpression(_, e) => e.bytes().len() as i128,
+        _ => 0,
+    };
+    24 + e
+}
+
+/// A generous upper bound of the size of the emitted section.
+pub fn size_bound(t: &XTable) -> i128 {
+    let mut b = 0i128;
+    for c in &t.cies {
+        b += 72 + c.insns.iter().map(insn_bound).sum::<i128>();
+    }
+    for f in &t.fdes {
+        b += 72 + f.insns.iter().map(|x| insn_bound(&x.1)).sum::<i128>();
+    }
+    b
+}
+
+fn classify_data_off(off: i32, daf: i8, v: &mut Verdict) {
+    if daf == 0 {
+        if off != 0 {
+            v.must_err.push("data_zero_factor");
+        }
+    } else if off == i32::MIN && daf == -1 {
+        v.either.push("data_min_neg1");
+    } else if (off as i64) % (daf as i64) != 0 {
+        v.must_err.push("data_misaligned");
+    }
+}
+
+fn classify_insn(i: &XInsn, daf: i8, v: &mut Verdict) {
+    match *i {
+        XInsn::Cfa(_, off) | XInsn::CfaOffset(off) => {
+            if off < 0 {
+                classify_data_off(off, daf, v);
+            }
+        }
+        XInsn::Offset(_, off) | XInsn::ValOffset(_, off) => classify_data_off(off, daf, v),
+        _ => {}
+    }
+}
+
+fn classify_ptr(enc: u8, addr: &XAddr, asize: u8, bound: i128, v: &mut Verdict) {
+    let val = match addr {
+        XAddr::Symbol(..) => {
+            v.must_err.push("symbol");
+            return;
+        }
+        XAddr::Const(x) => *x,
+    };
+    let app = enc & 0x70;
+    let fmt = enc & 0x0f;
+    if !matches!(app, 0x00 | 0x10) {
+        v.must_err.push("enc_application");
+        return;
+    }
+    let Some((lo, hi)) = format_range(fmt, asize) else {
+        v.must_err.push("enc_format");
+        return;
+    };
+    let mask = mask_of(asize);
+    if val > mask {
+        if app == 0 && fmt == 0 {
+            v.must_err.push("addr_too_large");
+        } else {
+            v.either.push("addr_beyond_mask");
+            v.no_readback = true;
+        }
+        return;
+    }
+    let (tlo, thi) = if app == 0 { (val as i128, val as i128) } else { (val as i128 - bound, val as i128) };
+    if tlo >= lo && thi <= hi {
+        return;
+    }
+    let m = 1i128 << (asize as u32 * 8);
+    for k in -2i128..=2 {
+        let (a, b) = (tlo + k * m, thi + k * m);
+        if a <= hi && b >= lo {
+            v.either.push("ptr_modular");
+            return;
+        }
+    }
+    v.must_err.push("ptr_too_large");
+}
+
+fn classify_cie(c: &XCie, eh: bool, bound: i128, v: &mut Verdict) {
+    let ok_version = if eh { c.version == 1 } else { matches!(c.version, 1 | 3 | 4) };
+    if !ok_version {
+        v.must_err.push("version");
+    }
+    if c.version == 1 && c.ra > 0xff {
+        v.must_err.push("ra_v1");
+    }
+    if let Some((enc, a)) = &c.personality {
+        classify_ptr(*enc, a, c.asize, bound, v);
+    }
+    for i in &c.insns {
+        classify_insn(i, c.daf, v);
+    }
+}
+
+fn classify_fde(f: &XFde, c: &XCie, bound: i128, v: &mut Verdict) {
+    let mask = mask_of(c.asize);
+    if c.fde_enc == 0 {
+        match &f.addr {
+            XAddr::Symbol(..) => v.must_err.push("symbol"),
+            XAddr::Const(a) => {
+                if *a > mask {
+                    v.must_err.push("addr_too_large");
+                }
+            }
+        }
+        if f.len as u64 > mask {
+            v.must_err.push("len_too_large");
+        }
+    } else {
+        classify_ptr(c.fde_enc, &f.addr, c.asize, bound, v);
+        if let Some((lo, hi)) = format_range(c.fde_enc & 0x0f, c.asize) {
+            let l = f.len as i128;
+            if l < lo || l > hi {
+                v.must_err.push("len_too_large");
+            }
+        }
+    }
+    if let (Some(enc), Some(l)) = (c.lsda_enc, &f.lsda) {
+        classify_ptr(enc, l, c.asize, bound, v);
+    }
+    let mut prev = 0u32;
+    for (off, insn) in &f.insns {
+        if *off < prev {
+            v.must_err.push("code_decreasing");
+        } else {
+            let delta = *off - prev;
+            if delta != 0 {
+                if c.caf == 0 {
+                    v.must_err.push("code_zero_factor");
+                } else if delta % c.caf as u32 != 0 {
+                    v.must_err.push("code_misaligned");
+                }
+            }
+        }
+        prev = *off;
+        classify_insn(insn, c.daf, v);
+    }
+}
+
+pub fn classify(t: &XTable) -> Verdict {
+    let bound = size_bound(t);
+    let mut v = Verdict::default();
+    let mut done = vec![false; t.cies.len()];
+    for f in &t.fdes {
+        let c = &t.cies[f.cie];
+        if !done[f.cie] {
+            done[f.cie] = true;
+            classify_cie(c, t.eh, bound, &mut v);
+        }
+        classify_fde(f, c, bound, &mut v);
+    }
+    v
+}
+
+// ================================================================ building the gimli table
+
+fn to_addr(a: &XAddr) -> w::Address {
+    match *a {
+        XAddr::Const(v) => w::Address::Constant(v),
+        XAddr::Symbol(symbol, addend) => w::Address::Symbol { symbol, addend },
+    }
+}
+
+fn to_expr(e: &XExpr) -> w::Expression {
+    match e {
+        XExpr::Raw(b) => w::Expression::raw(b.clone()),
+        XExpr::Ops(ops) => {
+            let mut x = w::Expression::new();
+            for op in ops {
+                match *op {
+                    XOp::Breg(r, off) => x.op_breg(Register(r), off),
+                    XOp::PlusUconst(v) => x.op_plus_uconst(v),
+                    XOp::Deref => x.op_deref(),
+                    XOp::Simple(b) => x.op(gimli::DwOp(b)),
+                }
+            }
+            x
+        }
+    }
+}
+
+fn to_insn(i: &XInsn) -> w::CallFrameInstruction {
+    use w::CallFrameInstruction as C;
+    match i {
+        XInsn::Cfa(r, o) => C::Cfa(Register(*r), *o),
+        XInsn::CfaRegister(r) => C::CfaRegister(Register(*r)),
+        XInsn::CfaOffset(o) => C::CfaOffset(*o),
+        XInsn::CfaExpression(e) => C::CfaExpression(to_expr(e)),
+        XInsn::Restore(r) => C::Restore(Register(*r)),
+        XInsn::Undefined(r) => C::Undefined(Register(*r)),
+        XInsn::SameValue(r) => C::SameValue(Register(*r)),
+        XInsn::Offset(r, o) => C::Offset(Register(*r), *o),
+        XInsn::ValOffset(r, o) => C::ValOffset(Register(*r), *o),
+        XInsn::Register(r, s) => C::Register(Register(*r), Register(*s)),
+        XInsn::Expression(r, e) => C::Expression(Register(*r), to_expr(e)),
+        XInsn::ValExpression(r, e) => C::ValExpression(Register(*r), to_expr(e)),
+        XInsn::RememberState => C::RememberState,
+        XInsn::RestoreState => C::RestoreState,
+        XInsn::ArgsSize(n) => C::ArgsSize(*n),
+        XInsn::NegateRaState => C::NegateRaState,
+    }
+}
+
+struct Written {
+    ids: Vec<w::CieId>,
+    cie_count: usize,
+    fde_count: usize,
+    result: Result<Vec<u8>, w::Error>,
+}
+
+fn build_and_write(t: &XTable) -> Written {
+    let mut table = w::FrameTable::default();
+    let mut ids = vec![];
+    for c in &t.cies {
+        let enc = gimli::Encoding {
+            format: if c.fmt64 { gimli::Format::Dwarf64 } else { gimli::Format::Dwarf32 },
+            version: c.version,
+            address_size: c.asize,
+        };
+        let mut cie = w::CommonInformationEntry::new(enc, c.caf, c.daf, Register(c.ra));
+        cie.personality = c.personality.as_ref().map(|(e, a)| (gimli::DwEhPe(*e), to_addr(a)));
+        cie.lsda_encoding = c.lsda_enc.map(gimli::DwEhPe);
+        cie.fde_address_encoding = gimli::DwEhPe(c.fde_enc);
+        cie.signal_trampoline = c.signal;
+        for i in &c.insns {
+            cie.add_instruction(to_insn(i));
+        }
+        ids.push(table.add_cie(cie));
+    }
+    for f in &t.fdes {
+        let mut fde = w::FrameDescriptionEntry::new(to_addr(&f.addr), f.len);
+        fde.lsda = f.lsda.as_ref().map(to_addr);
+        for (off, i) in &f.insns {
+            fde.add_instruction(*off, to_insn(i));
+        }
+        table.add_fde(ids[f.cie], fde);
+    }
+    let endian = if t.le { RunTimeEndian::Little } else { RunTimeEndian::Big };
+    let result = if t.eh {
+        let mut s = w::EhFrame::from(w::EndianVec::new(endian));
+        table.write_eh_frame(&mut s).map(|_| s.0.into_vec())
+    } else {
+        let mut s = w::DebugFrame::from(w::EndianVec::new(endian));
+        table.write_debug_frame(&mut s).map(|_| s.0.into_vec())
+    };
+    Written { ids, cie_count: table.cie_count(), fde_count: table.fde_count(), result }
+}
+
+// ================================================================ reading back
+
+struct VecStore;
+impl<T: gimli::ReaderOffset> rd::UnwindContextStorage<T> for VecStore {
+    type Rules = Vec<(Register, rd::RegisterRule<T>)>;
+    type Stack = Vec<rd::UnwindTableRow<T, Self>>;
+}
+
+#[derive(Clone, Debug, PartialEq, Eq)]
+struct RCie {
+    fmt64: bool,
+    version: u8,
+    asize: u8,
+    caf: u64,
+    daf: i64,
+    ra: u16,
+    has_aug: bool,
+    lsda_enc: Option<u8>,
+    /// (encoding, indirect, address)
+    personality: Option<(u8, bool, u64)>,
+    fde_enc: Option<u8>,
+    signal: bool,
+}
+
+#[derive(Clone, Debug, PartialEq, Eq)]
+struct RFde {
+    addr: u64,
+    len: u64,
+    /// (indirect, address)
+    lsda: Option<(bool, u64)>,
+    personality: Option<(bool, u64)>,
+    signal: bool,
+}
+
+enum REntry {
+    Cie { offset: usize, length: usize, cie: RCie },
+    Fde { offset: usize, length: usize, cie_offset: usize, fde: RFde, rows: Result<Vec<MRow>, String> },
+}
+
+type Slice<'a> = EndianSlice<'a, RunTimeEndian>;
+
+fn ptr(p: rd::Pointer) -> (bool, u64) {
+    match p {
+        rd::Pointer::Direct(a) => (false, a),
+        rd::Pointer::Indirect(a) => (true, a),
+    }
+}
+
+fn conv_cie(c: &rd::CommonInformationEntry<Slice<'_>>) -> RCie {
+    RCie {
+        fmt64: c.encoding().format == gimli::Format::Dwarf64,
+        version: c.version(),
+        asize: c.address_size(),
+        caf: c.code_alignment_factor(),
+        daf: c.data_alignment_factor(),
+        ra: c.return_address_register().0,
+        has_aug: c.augmentation().is_some(),
+        lsda_enc: c.lsda_encoding().map(|e| e.0),
+        personality: c.personality_with_encoding().map(|(e, p)| {
+            let (i, a) = ptr(p);
+            (e.0, i, a)
+        }),
+        fde_enc: c.fde_address_encoding().map(|e| e.0),
+        signal: c.is_signal_trampoline(),
+    }
+}
+
+fn expr_bytes<'a, S: UnwindSection<Slice<'a>>>(sec: &S, e: &rd::UnwindExpression<usize>) -> Result<Vec<u8>, String> {
+    let x = e.get(sec).map_err(|e| format!("expression: {e:?}"))?;
+    Ok(x.0.slice().to_vec())
+}
+
+fn conv_row<'a, S: UnwindSection<Slice<'a>>>(sec: &S, row: &rd::UnwindTableRow<usize, VecStore>) -> Result<MRow, String> {
+    let cfa = match row.cfa() {
+        rd::CfaRule::RegisterAndOffset { register, offset } => MCfa::RegOff(register.0, *offset),
+        rd::CfaRule::Expression(e) => MCfa::Expr(expr_bytes(sec, e)?),
+    };
+    let mut rules = BTreeMap::new();
+    for (reg, rule) in row.registers() {
+        let r = match rule {
+            rd::RegisterRule::Undefined => MRule::Undefined,
+            rd::RegisterRule::SameValue => MRule::SameValue,
+            rd::RegisterRule::Offset(o) => MRule::Offset(*o),
+            rd::RegisterRule::ValOffset(o) => MRule::ValOffset(*o),
+            rd::RegisterRule::Register(r) => MRule::Register(r.0),
+            rd::RegisterRule::Expression(e) => MRule::Expression(expr_bytes(sec, e)?),
+            rd::RegisterRule::ValExpression(e) => MRule::ValExpression(expr_bytes(sec, e)?),
+            rd::RegisterRule::Constant(c) => MRule::Constant(*c),
+            other => MRule::Other(format!("{other:?}")),
+        };
+        if rules.insert(reg.0, r).is_some() {
+            return Err(format!("register {} listed twice in one row", reg.0));
+        }
+    }
+    Ok(MRow { start: row.start_address(), end: row.end_address(), cfa: Some(cfa), rules, args: row.saved_args_size() })
+}
+
+fn read_back<'a, S>(sec: &S, bases: &rd::BaseAddresses) -> Result<Vec<REntry>, String>
+where
+    S: UnwindSection<Slice<'a>>,
+    S::Offset: rd::UnwindOffset<usize>,
+{
+    let mut out = vec![];
+    let mut entries = sec.entries(bases);
+    loop {
+        let e = match entries.next() {
+            Ok(Some(e)) => e,
+            Ok(None) => break,
+            Err(e) => return Err(format!("entries.next: {e:?} after {} entries", out.len())),
+        };
+        match e {
+            rd::CieOrFde::Cie(c) => out.push(REntry::Cie { offset: c.offset(), length: c.entry_len(), cie: conv_cie(&c) }),
+            rd::CieOrFde::Fde(p) => {
+                let fde = p.parse(S::cie_from_offset).map_err(|e| format!("FDE at {:#x}: parse: {e:?}", p.offset()))?;
+                let r = RFde {
+                    addr: fde.initial_address(),
+                    len: fde.len(),
+                    lsda: fde.lsda().map(ptr),
+                    personality: fde.personality().map(ptr),
+                    signal: fde.is_signal_trampoline(),
+                };
+                let mut ctx = rd::UnwindContext::<usize, VecStore>::new_in();
+                let rows = (|| {
+                    let mut table = fde.rows(sec, bases, &mut ctx).map_err(|e| format!("rows: {e:?}"))?;
+                    let mut rows = vec![];
+                    loop {
+                        match table.next_row() {
+                            Ok(Some(row)) => rows.push(conv_row(sec, row)?),
+                            Ok(None) => break,
+                            Err(e) => return Err(format!("next_row: {e:?} after {} rows", rows.len())),
+                        }
+                        if rows.len() > 100_000 {
+                            return Err("more than 100000 rows".into());
+                        }
+                    }
+                    Ok(rows)
+                })();
+                out.push(REntry::Fde { offset: fde.offset(), length: fde.entry_len(), cie_offset: fde.cie().offset(), fde: r, rows });
+            }
+        }
+        if out.len() > 100_000 {
+            return Err("more than 100000 entries".into());
+        }
+    }
+    Ok(out)
+}
+
+/// Independent walk over the entries: (offset, total size incl. the length field, 64-bit?).
+fn walk_entries(b: &[u8], le: bool) -> Result<Vec<(usize, usize, bool)>, String> {
+    let mut out = vec![];
+    let mut pos = 0usize;
+    while pos < b.len() {
+        if b.len() - pos < 4 {
+            return Err(format!("{} stray bytes at {pos:#x}", b.len() - pos));
+        }
+        let w32 = crate::asm::get_uint(&b[pos..], le, 4);
+        let (hdr, len, is64) = if w32 == 0xffff_ffff {
+            if b.len() - pos < 12 {
+                return Err(format!("truncated 64-bit length at {pos:#x}"));
+            }
+            (12usize, crate::asm::get_uint(&b[pos + 4..], le, 8), true)
+        } else if w32 >= 0xffff_fff0 {
+            return Err(format!("reserved initial length at {pos:#x}"));
+        } else {
+            (4usize, w32, false)
+        };
+        let total = (hdr as u64).checked_add(len).filter(|t| *t <= (b.len() - pos) as u64);
+        let Some(total) = total else {
+            return Err(format!("entry at {pos:#x} (length {len:#x}) runs past the end of the section"));
+        };
+        out.push((pos, total as usize, is64));
+        pos += total as usize;
+    }
+    Ok(out)
+}
+
+// ================================================================ the check
+
+fn table_has_negate(t: &XTable) -> bool {
+    t.cies.iter().any(|c| c.insns.contains(&XInsn::NegateRaState)) || t.fdes.iter().any(|f| f.insns.iter().any(|(_, i)| *i == XInsn::NegateRaState))
+}
+
+fn err_name(e: &w::Error) -> String {
+    let s = format!("{e:?}");
+    s.split('(').next().unwrap_or("").to_string()
+}
+
+fn first_row_diff(exp: &[MRow], got: &[MRow]) -> Option<String> {
+    if exp.len() != got.len() {
+        return Some(format!("{} rows expected, {} read; expected starts {:x?}, read starts {:x?}", exp.len(), got.len(), exp.iter().map(|r| r.start).take(12).collect::<Vec<_>>(), got.iter().map(|r| r.start).take(12).collect::<Vec<_>>()));
+    }
+    for (k, (e, g)) in exp.iter().zip(got).enumerate() {
+        let mut g = g.clone();
+        if e.cfa.is_none() {
+            g.cfa = None;
+        }
+        if *e != g {
+            return Some(format!("row {k}: expected {e:x?} read {g:x?}"));
+        }
+    }
+    None
+}
+
+fn observe_table(ctx: &mut Ctx, t: &XTable) {
+    ctx.obs(if t.eh { "sec.eh_frame" } else { "sec.debug_frame" });
+    ctx.obs(if t.le { "endian.le" } else { "endian.be" });
+    if t.fdes.is_empty() {
+        ctx.obs("table.empty");
+    }
+    let mut refd = vec![0usize; t.cies.len()];
+    for f in &t.fdes {
+        refd[f.cie] += 1;
+    }
+    let mut obs_enc = |ctx: &mut Ctx, e: u8| {
+        if enc_supported(e) {
+            ctx.obs(&format!("encfmt.{:x}", e & 0xf));
+            if e & 0x70 == 0x10 {
+                ctx.obs("enc.pcrel");
+            }
+            if e & 0x80 != 0 {
+                ctx.obs("enc.indirect");
+            }
+        }
+    };
+    let obs_insn = |ctx: &mut Ctx, i: &XInsn| {
+        ctx.obs(&format!("insn.{}", i.name()));
+        let reg = match i {
+            XInsn::Cfa(r, _) | XInsn::CfaRegister(r) | XInsn::Restore(r) | XInsn::Undefined(r) | XInsn::SameValue(r) | XInsn::Offset(r, _) | XInsn::ValOffset(r, _) | XInsn::Register(r, _) | XInsn::Expression(r, _) | XInsn::ValExpression(r, _) => Some(*r),
+            _ => None,
+        };
+        match reg {
+            Some(0x3f) => ctx.obs("reg.0x3f"),
+            Some(0x40) => ctx.obs("reg.0x40"),
+            Some(r) if r >= 0x80 => ctx.obs("reg.large"),
+            _ => {}
+        }
+        match i {
+            XInsn::Cfa(_, o) | XInsn::CfaOffset(o) | XInsn::Offset(_, o) | XInsn::ValOffset(_, o) => ctx.obs(if *o < 0 { "off.neg" } else { "off.pos" }),
+            XInsn::CfaExpression(e) | XInsn::Expression(_, e) | XInsn::ValExpression(_, e) => ctx.obs(if matches!(e, XExpr::Raw(_)) { "expr.raw" } else { "expr.ops" }),
+            _ => {}
+        }
+    };
+    for (k, c) in t.cies.iter().enumerate() {
+        if refd[k] == 0 {
+            ctx.obs("cie.unreferenced");
+            continue;
+        }
+        if refd[k] > 1 {
+            ctx.obs("cie.shared_by_fdes");
+        }
+        ctx.obs(&format!("ver.{}", c.version));
+        ctx.obs(if c.fmt64 { "fmt.64" } else { "fmt.32" });
+        ctx.obs(&format!("asize.{}", c.asize));
+        if c.asize != t.sec_asize {
+            ctx.obs("cie.mixed_asize");
+        }
+        if c.caf == 0 {
+            ctx.obs("caf.0");
+        }
+        ctx.obs(if c.daf == 0 { "daf.0" } else if c.daf < 0 { "daf.neg" } else { "daf.pos" });
+        if !c.has_aug() {
+            ctx.obs("aug.none");
+        }
+        if let Some((e, _)) = &c.personality {
+            ctx.obs("aug.personality");
+            obs_enc(ctx, *e);
+        }
+        if let Some(e) = c.lsda_enc {
+            ctx.obs("aug.lsda");
+            obs_enc(ctx, e);
+        }
+        if c.fde_enc != 0 {
+            ctx.obs("aug.fde_enc");
+            obs_enc(ctx, c.fde_enc);
+        }
+        if c.signal {
+            ctx.obs("aug.signal");
+        }
+        for i in &c.insns {
+            obs_insn(ctx, i);
+        }
+        if t.cies[..k].iter().any(|d| d == c) {
+            ctx.obs("cie.dup_exact");
+        }
+    }
+    for f in &t.fdes {
+        let caf = t.cies[f.cie].caf as u32;
+        let mut prev = 0u32;
+        for (off, i) in &f.insns {
+            obs_insn(ctx, i);
+            if *off == prev {
+                ctx.obs("adv.same");
+            } else if *off > prev && caf != 0 && (*off - prev) % caf == 0 {
+                let fd = (*off - prev) / caf;
+                ctx.obs(if fd < 0x40 { "adv.inline" } else if fd < 0x100 { "adv.loc1" } else if fd < 0x10000 { "adv.loc2" } else { "adv.loc4" });
+                if matches!(fd, 0x3f | 0x40 | 0xff | 0x100 | 0xffff | 0x10000) {
+                    ctx.obs(&format!("adv.f{fd:#x}"));
+                }
+            }
+            prev = *off;
+        }
+    }
+}
+
+/// Run one table through the writer and the reader and compare with the model.
+pub fn check_table(ctx: &mut Ctx, t: &XTable, tag: &str) {
+    ctx.eval();
+    let verdict = classify(t);
+    let desc = format!("{t:#?}");
+    let input0 = || json!({"table": desc, "verdict": format!("{verdict:?}")});
+    let Some(wr) = ctx.guard(&format!("{tag}.write"), &input0, || build_and_write(t)) else { return };
+
+    observe_table(ctx, t);
+    if !t.fdes.is_empty() {
+        ctx.nontrivial(fnv(desc.as_bytes()));
+    }
+    for c in verdict.must_err.iter().chain(verdict.either.iter()) {
+        ctx.obs(&format!("cls.{c}"));
+    }
+
+    // ---- ids and counts
+    let mut distinct: Vec<usize> = vec![]; // index of the first occurrence of each distinct CIE value
+    for (i, c) in t.cies.iter().enumerate() {
+        if !t.cies[..i].iter().any(|d| d == c) {
+            distinct.push(i);
+        }
+    }
+    ctx.check_eq("add_cie.cie_count", &distinct.len(), &wr.cie_count, &input0);
+    ctx.check_eq("add_fde.fde_count", &t.fdes.len(), &wr.fde_count, &input0);
+    for i in 0..t.cies.len() {
+        for j in 0..i {
+            let same_model = t.cies[i] == t.cies[j];
+            let same_id = wr.ids[i] == wr.ids[j];
+            if same_model != same_id {
+                ctx.check_eq("add_cie.id_sharing", &same_model, &same_id, &input0);
+            }
+        }
+    }
+
+    // ---- verdict
+    let bytes = match (&wr.result, verdict.must_err.is_empty(), verdict.either.is_empty()) {
+        (Ok(b), true, e) => {
+            ctx.obs(if e { "verdict.ok" } else { "verdict.either" });
+            if !e {
+                ctx.obs("either.ok");
+            }
+            b.clone()
+        }
+        (Ok(b), false, _) => {
+            ctx.obs("verdict.err");
+            let b2 = b.clone();
+            ctx.fail(
+                &format!("write.ok_for_unexpressible.{}", verdict.must_err[0]),
+                &format!("writer returned Ok for a table the model classifies as unexpressible ({:?})", verdict.must_err),
+                &|| json!({"table": desc, "verdict": format!("{verdict:?}"), "bytes": hex(&b2)}),
+            );
+            return;
+        }
+        (Err(e), false, _) => {
+            ctx.obs("verdict.err");
+            ctx.obs(&format!("err.{}", err_name(e)));
+            return;
+        }
+        (Err(e), true, false) => {
+            ctx.obs("verdict.either");
+            ctx.obs("either.err");
+            ctx.obs(&format!("err.{}", err_name(e)));
+            return;
+        }
+        (Err(e), true, true) => {
+            ctx.obs("verdict.ok");
+            ctx.fail("write.err_for_expressible", &format!("writer returned Err({e:?}) for an expressible table"), &input0);
+            return;
+        }
+    };
+    let input = || json!({"table": desc, "verdict": format!("{verdict:?}"), "bytes": hex(&bytes)});
+    if bytes.len() as i128 > size_bound(t) {
+        ctx.harness_error(&format!("C14: size bound {} < emitted {} bytes", size_bound(t), bytes.len()));
+    }
+    if verdict.no_readback {
+        ctx.obs("readback.unjudged");
+        // still must not panic
+        let _ = ctx.guard(&format!("{tag}.read"), &input, || do_read(t, &bytes).map(|v| v.len()));
+        return;
+    }
+
+    // ---- independent walk: tiling
+    let walk = match walk_entries(&bytes, t.le) {
+        Ok(w) => w,
+        Err(e) => {
+            ctx.fail("readback.tiling", &format!("entries do not tile the section: {e}"), &input);
+            return;
+        }
+    };
+
+    // ---- read back
+    let Some(read) = ctx.guard(&format!("{tag}.read"), &input, || do_read(t, &bytes)) else { return };
+    let entries = match read {
+        Ok(e) => e,
+        Err(e) => {
+            ctx.fail("readback.error", &format!("reading the written section failed: {e}"), &input);
+            return;
+        }
+    };
+    ctx.obs("readback.tables");
+
+    // ---- expected sequence
+    #[derive(Debug, PartialEq, Clone, Copy)]
+    enum Kind {
+        Cie(usize),
+        Fde(usize),
+    }
+    let first_of = |i: usize| t.cies.iter().position(|d| *d == t.cies[i]).unwrap_or(i);
+    let mut exp_seq = vec![];
+    let mut emitted: Vec<usize> = vec![];
+    for (k, f) in t.fdes.iter().enumerate() {
+        let c0 = first_of(f.cie);
+        if !emitted.contains(&c0) {
+            emitted.push(c0);
+            exp_seq.push(Kind::Cie(c0));
+        }
+        exp_seq.push(Kind::Fde(k));
+    }
+    let got_kinds: Vec<&str> = entries.iter().map(|e| if matches!(e, REntry::Cie { .. }) { "CIE" } else { "FDE" }).collect();
+    let exp_kinds: Vec<&str> = exp_seq.iter().map(|e| if matches!(e, Kind::Cie(_)) { "CIE" } else { "FDE" }).collect();
+    if !ctx.check_eq("readback.sequence", &exp_kinds, &got_kinds, &input) {
+        return;
+    }
+    let got_offsets: Vec<usize> = entries.iter().map(|e| match e { REntry::Cie { offset, .. } | REntry::Fde { offset, .. } => *offset }).collect();
+    let walk_offsets: Vec<usize> = walk.iter().map(|w| w.0).collect();
+    if !ctx.check_eq("readback.tiling.offsets", &walk_offsets, &got_offsets, &input) {
+        return;
+    }
+
+    let mut cie_offset_of: BTreeMap<usize, usize> = BTreeMap::new();
+    for ((exp, got), wk) in exp_seq.iter().zip(&entries).zip(&walk) {
+        let (model_cie, length) = match (exp, got) {
+            (Kind::Cie(ci), REntry::Cie { offset, length, cie }) => {
+                let c = &t.cies[*ci];
+                cie_offset_of.insert(*ci, *offset);
+                let e = RCie {
+                    fmt64: c.fmt64,
+                    version: c.version as u8,
+                    asize: c.asize,
+                    caf: c.caf as u64,
+                    daf: c.daf as i64,
+                    ra: c.ra,
+                    has_aug: c.has_aug(),
+                    lsda_enc: c.lsda_enc,
+                    personality: c.personality.as_ref().map(|(e, a)| (*e, e & 0x80 != 0, if let XAddr::Const(v) = a { *v } else { 0 })),
+                    fde_enc: if c.fde_enc != 0 { Some(c.fde_enc) } else { None },
+                    signal: c.signal,
+                };
+                ctx.check_eq("readback.cie", &e, cie, &input);
+                (c, *length)
+            }
+            (Kind::Fde(fi), REntry::Fde { length, cie_offset, fde, rows, .. }) => {
+                let f = &t.fdes[*fi];
+                let c = &t.cies[f.cie];
+                let exp_cie_off = cie_offset_of.get(&first_of(f.cie)).copied();
+                ctx.check_eq("readback.fde.cie_binding", &exp_cie_off, &Some(*cie_offset), &input);
+                let cv = |a: &XAddr| if let XAddr::Const(v) = a { *v } else { 0 };
+                let addr = cv(&f.addr);
+                let e = RFde {
+                    addr,
+                    len: f.len as u64,
+                    lsda: match (c.lsda_enc, &f.lsda) {
+                        (Some(enc), Some(a)) => Some((enc & 0x80 != 0, cv(a))),
+                        _ => None,
+                    },
+                    personality: c.personality.as_ref().map(|(e, a)| (e & 0x80 != 0, cv(a))),
+                    signal: c.signal,
+                };
+                ctx.check_eq("readback.fde", &e, fde, &input);
+                // rows
+                let mask = mask_of(c.asize);
+                let span = f.insns.iter().map(|x| x.0).max().unwrap_or(0).max(f.len) as u64;
+                if addr.checked_add(span).map(|x| x <= mask).unwrap_or(false) {
+                    match model_rows(&c.insns, &f.insns, addr, f.len, mask) {
+                        Err(e) => ctx.harness_error(&format!("C14: generator produced an ill-formed program: {e}")),
+                        Ok(exp_rows) => match rows {
+                            Err(e) => ctx.fail("readback.rows.error", &format!("FDE {fi}: evaluating the rows failed: {e}"), &input),
+                            Ok(got_rows) => {
+                                ctx.obs("rows.compared");
+                                ctx.obs_n("rows.count", exp_rows.len() as u64);
+                                if let Some(d) = first_row_diff(&exp_rows, got_rows) {
+                                    ctx.fail("readback.rows", &format!("FDE {fi}: {d}"), &input);
+                                }
+                            }
+                        },
+                    }
+                } else {
+                    ctx.obs("rows.unjudged");
+                }
+                (c, *length)
+            }
+            _ => continue,
+        };
+        // entry size: length field + length, multiple of the address size
+        let hdr = if wk.2 { 12 } else { 4 };
+        ctx.check_eq("readback.entry_len", &wk.1.saturating_sub(hdr), &length, &input);
+        ctx.check_eq("readback.entry_format", &model_cie.fmt64, &wk.2, &input);
+        if wk.1 % model_cie.asize as usize != 0 {
+            ctx.fail("readback.padding", &format!("entry at {:#x}: total size {} is not a multiple of the address size {}", wk.0, wk.1, model_cie.asize), &input);
+        }
+    }
+    ctx.sample(tag, || json!({"table": desc.chars().take(1500).collect::<String>(), "bytes": hex(&bytes), "entries": got_kinds}));
+}
+
+fn do_read(t: &XTable, bytes: &[u8]) -> Result<Vec<REntry>, String> {
+    let endian = if t.le { RunTimeEndian::Little } else { RunTimeEndian::Big };
+    let bases = rd::BaseAddresses::default().set_eh_frame(0);
+    let vendor = if table_has_negate(t) { gimli::Vendor::AArch64 } else { gimli::Vendor::Default };
+    if t.eh {
+        let mut s = rd::EhFrame::new(bytes, endian);
+        s.set_address_size(t.sec_asize);
+        s.set_vendor(vendor);
+        read_back(&s, &bases)
+    } else {
+        let mut s = rd::DebugFrame::new(bytes, endian);
+        s.set_address_size(t.sec_asize);
+        s.set_vendor(vendor);
+        read_back(&s, &bases)
+    }
+}
+
+pub fn run(ctx: &mut Ctx) {
+    gen::regress(ctx);
+    gen::enum_adv(ctx);
+    gen::enum_data(ctx);
+    gen::enum_enc(ctx);
+    gen::random(ctx);
+}
